@@ -417,7 +417,6 @@ def times_ratio(term, q, r):
     return term == mk_mul([q, r])
 
 
-_PIPE_CACHE = {}
 
 
 def iterator_chain(F, chain, depth=0):
@@ -541,7 +540,10 @@ def loop_pipeline(b, tb, bb):
     if not inner:
         return None
     h, bl = min(inner, key=lambda x: len(x[1]))
-    key = (id(tb.facts), b.id, h)
+    _PIPE_CACHE = getattr(tb.facts, "_pipe_memo", None)
+    if _PIPE_CACHE is None:
+        _PIPE_CACHE = tb.facts._pipe_memo = {}
+    key = (b.id, h)
     if key not in _PIPE_CACHE:
         try:
             p = Pipeline(tb.facts, b, Terms(tb.facts, b, inline_depth=0), h, bl)
